@@ -41,6 +41,7 @@ def check(ctx, F):
     check_iterators(ctx, F)
     check_reset(ctx, F)
     check_reset_plan_data(ctx, F)
+    check_clear_statuses(ctx, F)
     if not any(b["name"] == "linkTask" and b["inst"] for b in F.bodies.values()):
         ctx.note("unit %s compiled without PLANS" % F.label)
         return
@@ -378,6 +379,38 @@ def check_reset(ctx, F):
                 elif init is not None and _val(assigned[n]) != _val(init):
                     ctx.violation("C07.reset", site + "/" + n, "%s (%s)" % (site, F.floc(fid)),
                                   "%s resets `%s` to %s, its initial value is %s" % (site, n, assigned[n], init), {})
+
+
+def check_clear_statuses(ctx, F, rule="C07.clear"):
+    """PlanT::clearStatuses() clears the marks of exactly the region's states: i runs over [regionHeads[r], regionHeads[r] + regionSizes[r])
+    (half-open); an inclusive end touches the bit of the next region's head - or, for the last region, the bit one past the array"""
+    from ..ir import const_local_defs, subst_locals
+    for fid, b in insts(F, "PlanT", {"clearStatuses"}):
+        site = "PlanT::clearStatuses"
+        defs = const_local_defs(b["body"])
+        loops = [x for x in walk(b["body"]) if x.get("k") == "for"]
+        got = None
+        if len(loops) == 1:
+            l = loops[0]
+            iv, start = None, None
+            for x in walk(l.get("init") or {}):
+                if x.get("k") == "decl":
+                    for v in x["vars"]:
+                        iv, start = v["n"], _expr_txt(subst_locals(v.get("init") or {}, defs))
+            c = strip(l.get("c") or {})
+            if iv and c.get("k") == "bin" and strip(c["lhs"]).get("n") == iv:
+                end = _expr_txt(subst_locals(c["rhs"], defs))
+                op = c["op"]
+                if op == "<=" and re.search(r"-1\)?$", end):
+                    op, end = "<", re.sub(r"-1(\)?)$", r"\1", end)
+                got = (re.sub(r"\bthis\.", "", start or ""), op, re.sub(r"\bthis\.", "", end))
+        want_start = "_registry.regionHeads[_regionId]"
+        want_ends = ("_registry.regionHeads[_regionId]+_registry.regionSizes[_regionId]", "(_registry.regionHeads[_regionId]+_registry.regionSizes[_regionId])",
+                     "_registry.regionSizes[_regionId]+_registry.regionHeads[_regionId]", "(_registry.regionSizes[_regionId]+_registry.regionHeads[_regionId])")
+        ctx.instance(rule, site, {"function": site, "loc": F.floc(fid), "range": got})
+        if got is None or got[0] != want_start or got[1] not in ("<", "!=") or got[2] not in want_ends:
+            ctx.violation(rule, site + "/range", "%s (%s)" % (site, F.floc(fid)),
+                          "the marks are cleared for i from %s, expected the half-open range [regionHeads[r], regionHeads[r] + regionSizes[r])" % (got,), {})
 
 
 def check_reset_plan_data(ctx, F):
